@@ -1,6 +1,8 @@
 import sys, os
 sys.path.insert(0, os.path.join(os.path.dirname(os.path.abspath(__file__)), '..', 'engine'))
 from driver import *
+sys.path.insert(0, os.path.dirname(os.path.abspath(__file__)))
+import common_jobs
 
 
 def main(tier):
@@ -9,9 +11,10 @@ def main(tier):
                  'range/routing': 'one takeSample from every state: both samples in [0,1) (IEEE float32, round-to-nearest-even, as Go computes them), 0 when no channel with its status bit on is routed to that side; self-composition: two states differing only in a channel not routed to a side give bit-identical samples on that side',
                  'measured': 'multiples of 95 in one 4194304-clock second of the tickClock numbering: 44150; the gap across the once-per-second wrap is 149 clocks (reported, not asserted: the statement\'s parenthesis says 44,149)',
                  'outside': 'the host-side consumer, blocking on a full channel, the wiring of DisableAudioOutput in gameboy.New (package gameboy; see C26)'}
-    ck.assumptions = ['audioInv (proved inductive in C18)']
+    ck.assumptions = ['audioInv (field ranges; its inductive step is re-proved in this check)']
     jobs = [('audio', 'VerifSamplerClock', {'outputs': o}) for o in (0, 1)] + [('audio', 'VerifSamplerCycle', {}), ('audio', 'VerifSampleRange', {})]
     jobs += [('audio', 'VerifSampleIndependence', {'ch': k}) for k in (1, 2, 3, 4)]
+    common_jobs.run_audio_inv(ck)
     ck.run(jobs, timeout_ms=900000)
     ck.finish(explanation='one-step checks of the sampler: pacing by the clock index, float32 range, silence and non-interference of unrouted channels')
 
